@@ -285,4 +285,17 @@ def expected_content(before, op):
             _apply1(c, op)
     except Exception:  # noqa: BLE001
         return None
+    # the stoichiometries of an op arrive as pair lists; the call receives Python dicts built from them, in which a
+    # key given twice keeps its first position and its last value
+    for _, r in c["rxns"]:
+        r["st"] = _as_dict(r["st"])
+    for _, su in c["surs"]:
+        su["st"] = _as_dict([[f, _as_dict(inner)] for f, inner in su["st"]])
     return c
+
+
+def _as_dict(pairs):
+    d = {}
+    for k, v in pairs:
+        d[k] = v
+    return [[k, v] for k, v in d.items()]
